@@ -1,5 +1,5 @@
 CONSTANTS
-  MaxLen = 8
+  MaxLen = 7
   First = {"Match", "Case", "Type"}
   Alphabet = {"Match", "Type", "Name", "Colon", "Equal", "Lpar", "Rpar", "Lsqb", "Rsqb", "Lbrace", "Rbrace", "Lambda"}
   Mode = "Module"
